@@ -26,13 +26,15 @@ def run(tier, seed, replay_file=None):
     chk = gv.Check(PROP, tier, seed, level="proof")
     base.load_known_fallback(chk, PROP)
     proof = gv.proof_status(PROP, REQ_PROPS)
-    # quick: 300 histories on the pinned tree, up to 1200 when /repo has moved; thorough: 3000
-    ncases = gv.scaled(PROP, tier, 300, 1200, chk) if tier == "quick" else 3000
+    # quick: 220 histories on the pinned tree, up to 880 when /repo has moved; thorough: 3000
+    ncases = gv.scaled(PROP, tier, 220, 880, chk) if tier == "quick" else 3000
     ok, out, binp = gv.cargo_build("c01")
     if not ok:
         chk.violation("build", {"what": "the harness no longer builds against /repo's working tree", "log": out[-3000:],
                                 "broken": ["correspondence C02: harness build failed"]}, no_input=True)
         return chk.finish(proof)
+    if os.environ.get("GV_SELFTEST_CASES_C02"):     # own self-tests only (patched scratch trees under load): fewer cases
+        ncases = int(os.environ["GV_SELFTEST_CASES_C02"])
     rc, so, se, cases, dt = gv.run_harness(binp, ["--seed", seed, "--cases", ncases, "--tier", tier, "--prop", "c02"],
                                            os.path.join(gv.BUILD, "out", "c02%s.jsonl" % TAG))
     if rc != 0:
